@@ -196,6 +196,10 @@ def run(ctx, chk):
         core.import_rows(chk, cfg, "C01", "props.C01", ("T-inj-char", "T-rt-char", "S-display"))
         # the text comparison walks the symbols with iter(): SeqIter's transition rows (C11)
         core.import_rows(chk, cfg, "C11", "props.C11", ("G02", "G05c/into_iter", "S-glue"))
+    import core as _core
+    for cfg in ctx.configs():
+        chk.cfg = cfg.name
+        _core.import_codec_core(chk, cfg)      # the symbols' own tables (C05)
     chk.floor("eq impls over all configurations", neq, 17 * len(chk.configs))
     chk.floor("hash impls over all configurations", nhash, 3 * len(chk.configs))
 
